@@ -316,6 +316,10 @@ class AbstractInteger(Abstract):
     ):
         super().__init__()
 
+        # A literal such as ``Integer(5)`` supplies its value directly.
+        if isinstance(input, int):
+            (input, value) = (None, input)
+
         self.input = input
         self.value = self.input._value() if input is not None else value
         if input is not None:
@@ -432,6 +436,14 @@ class AbstractInteger(Abstract):
         of a class derived from this class.
         """
         return self.__sub__(other)
+
+    def __pos__(self: AbstractInteger) -> AbstractInteger:
+        """
+        Unary plus of abstract values that are instances of integer classes.
+        """
+        result = Abstract(type(self))
+        result.value = self.value
+        return result
 
     def __neg__(self: AbstractInteger) -> AbstractInteger:
         """
